@@ -81,8 +81,16 @@ def r1_2(ctx):
     domain = set(ctx.repo.enums[TS]) if ctx.thorough else (stored | {"NONE"})
     for gate, rows in spec.GATE_SAFE.items():
         tb = tabs[gate]
-        ctx.require(tb["store_locs"], f"gate {gate}: no store of {gate} found through check_state")
-        ctx.require(tb["empty"] == "must", f"gate {gate}: a task without predecessors is not let through (model broken?)")
+        ctx.instance(f"gate-{gate}:source")
+        for (fn, loc), (text, val) in sorted(tb["foreign"].items()):
+            ctx.violation(f"gate-{gate}:source:{fn}", loc,
+                          f"the {gate} gate ({fn}) iterates `{text}` whose value ({val[:60]}) is not the task's live input_task_list / the workflow's task_list: "
+                          f"predecessors are taken from a copy or cache, so a dependency that is added or changed later is not enforced")
+        if not tb["foreign"]:
+            ctx.require(tb["store_locs"], f"gate {gate}: no store of {gate} found through check_state")
+            ctx.require(tb["empty"] == "must", f"gate {gate}: a task without predecessors is not let through (model broken?)")
+        if not tb["store_locs"]:
+            continue
         for dep in ctx.repo.enums[DEP]:
             acc = accept_set(tb, dep, "may") & domain
             con = f"gate-{gate}:{dep}"
